@@ -240,3 +240,35 @@ def make(rng, kind=None):
     else:
         raise ValueError(kind)
     return {"tx": tx.ser().hex(), "txin": fund.ser().hex(), "kind": kind, "opts": opts}
+
+
+def make_nosig(wrap, script, items, depth=1):
+    """a spend whose executed script is `script` under the WITNESS_V0 or TAPSCRIPT rules, with `items` as its
+    initial stack and no signature anywhere: deterministic in its arguments (no randomness)"""
+    class _R:                       # spending_skeleton wants an rng: fixed choices
+        def bytes(self, n):
+            return bytes([0x42]) * n
+
+        def choice(self, seq):
+            return seq[0]
+    if wrap == "p2wsh":
+        spk = bytes([0x00, 0x20]) + sha256(script)
+        fund = funding(spk)
+        tx = spending_skeleton(fund, _R())
+        tx.vin[0].witness = list(items) + [script]
+        return {"tx": tx.ser().hex(), "txin": fund.ser().hex(), "commit_steps": 0}
+    if wrap == "tapscript":
+        node = tapleaf_hash(script)
+        path = []
+        for i in range(depth):
+            sib = sha256(b"btcsim-sibling-%d" % i)
+            path.append(sib)
+            node = tapbranch(node, sib)
+        q, parity, _ = ecc.taproot_tweak(KEYS[0], node)
+        spk = bytes([0x51, 0x20]) + q
+        fund = funding(spk)
+        tx = spending_skeleton(fund, _R())
+        control = bytes([0xc0 | parity]) + ecc.pub_xonly(KEYS[0]) + b"".join(path)
+        tx.vin[0].witness = list(items) + [script, control]
+        return {"tx": tx.ser().hex(), "txin": fund.ser().hex(), "commit_steps": depth + 1}
+    raise ValueError(wrap)
